@@ -1172,7 +1172,9 @@ def relative_demux_part(ctx, dist):
                 for nm, sq in zip(names, seqs):
                     argv += ["-G", "%s=^%s" % (nm, sq)]
                 argv += ["-o", "{name1}-{name2}.1.fastq", "-p", "{name1}-{name2}.2.fastq", "in.1.fastq", "in.2.fastq"]
-            res = R.run_cli(argv, d, rng.choice([1, 1, 2]), trace=False, nofile=nofile)
+            # under the low limit one core only: with worker processes the pipes come after the output files and their EMFILE is a
+            # loud failure outside this property
+            res = R.run_cli(argv, d, 1 if nofile else rng.choice([1, 1, 2]), trace=False, nofile=nofile)
             dist["relative output templates"] = dist.get("relative output templates", 0) + 1
             if nofile:
                 dist["more output files than the soft open-file limit"] = dist.get("more output files than the soft open-file limit", 0) + 1
